@@ -43,4 +43,29 @@ PROPS = {
              "importer's objects, a *** glob must (also objects declared after the import). non-trivial = >=2 files and (nested import or >=2 imports).",
         oracle_kind="a metamorphic twin (inlined imports) and direct rule checks",
     ),
+    "C15": dict(
+        engine="p_semantics", quick_checks=30000, thorough_checks=600000, quick_shards=14, thorough_shards=16,
+        rule="a root body of core-fragment statements (objects, attributes, connections, null) with layers / scenarios / steps blocks (1-3 boards each, "
+             "nested <=2 levels) inserted at random positions; board bodies add objects, override attributes, null inherited objects/connections. "
+             "Reference: scenario = deep copy of the enclosing board's state at the block's position + own statements; step k = copy of step k-1's "
+             "final state (step 1: the enclosing board); layer = empty + own; copies make isolation true in the model. oracle: every compiled board "
+             "(recursively, by kind and name) equals the reference board (objects, labels, attributes, connections), and the root board equals the "
+             "program with all board blocks removed. non-trivial = >=2 boards of which one overrides or deletes something inherited.",
+        oracle_kind="an independent reference interpreter plus a deletion twin",
+        assumptions=["classes, variables and board-wide globs inherited by layers are not generated here (C12 covers *** globs into layers)"],
+    ),
+    "C12": dict(
+        engine="p_semantics", quick_checks=40000, thorough_checks=1000000, quick_shards=14, thorough_shards=16,
+        rule="structured programs of 3-12 (thorough 3-24) statements in the root, a container and a nested container: globs (*, **, prefix, suffix, "
+             "infix and two-star patterns in any letter case; written inside the container's map or with a path prefix) assigning fill/shape/opacity/"
+             "label, object declarations before, between and after the globs (also through an outer path), explicit assignments before and after, "
+             "connections, and `(* -> *)[*]` connection globs. Reference expansion: a glob is applied to every existing match at its position and to "
+             "each later match at creation time, before the creating statement's own assignments, so later explicit beats glob and later glob beats "
+             "earlier explicit; `*` = direct children of the scope, `**` = all descendants; names matched case-insensitively, literal pieces in "
+             "order, first anchored; names on which the anchored-tail and open-tail readings differ are gray (an existing d2 test pins the open "
+             "tail). oracle: compiled objects == reference (no object created by a glob, attributes and labels equal) and connections equal. "
+             "non-trivial = >=1 glob, >=1 target created after it and >=1 explicit/glob precedence conflict.",
+        oracle_kind="an independent reference expansion of the globs",
+        assumptions=["glob filters, *** across boards/imports and connection-creating globs (`* -> x`) are not generated (the latter can make compilation diverge: C07 finding)"],
+    ),
 }
